@@ -598,6 +598,8 @@ func (c *DutiesCache) SyncCommDutiesCache(ctx context.Context, epoch eth2p0.Epoc
 
 		for _, d := range dutiesForEpoch.duties {
 			if _, hit := requestedSet[d.ValidatorIndex]; hit {
+				// Clone the indices, callers must not share memory with the cache.
+				d.ValidatorSyncCommitteeIndices = slices.Clone(d.ValidatorSyncCommitteeIndices)
 				dutiesResult = append(dutiesResult, &d)
 			}
 		}
@@ -629,6 +631,8 @@ func (c *DutiesCache) SyncCommDutiesCache(ctx context.Context, epoch eth2p0.Epoc
 		}
 
 		d := *duty
+		// Clone the indices, the fetched duties are also returned to the caller.
+		d.ValidatorSyncCommitteeIndices = slices.Clone(duty.ValidatorSyncCommitteeIndices)
 		dutiesDeref = append(dutiesDeref, d)
 	}
 
